@@ -63,6 +63,9 @@ def _patch_crosshair():
     return stats
 
 
+NO_PURE_IMPORTS = {"harness.C43", "harness.C30", "harness.C31", "harness.C32", "harness.C33", "harness.C34", "harness.C35gt"}
+
+
 def analyze(module: str, fn_name: str, inst: dict, timeout: float, per_path: float | None = None) -> dict:
     t0 = time.time()
     stats = _patch_crosshair()
@@ -75,8 +78,14 @@ def analyze(module: str, fn_name: str, inst: dict, timeout: float, per_path: flo
     from crosshair.tracers import ResumedTracing, NoTracing  # noqa: F401
     from engine import api
 
-    with prefer_pure_python_imports():
+    # GT harnesses (gate-serialised threads) keep the C implementations of datetime/heapq: their worker threads are not traced by
+    # CrossHair and no symbolic value reaches library code, while mixing pure-Python and C datetime classes breaks isinstance
+    if module in NO_PURE_IMPORTS:
+        import reactivex  # noqa: F401
         mod = importlib.import_module(module)
+    else:
+        with prefer_pure_python_imports():
+            mod = importlib.import_module(module)
     fn = getattr(mod, fn_name)
     spec: api.HarnessSpec = fn.__harness__
     flat = spec.flat_params(inst)
